@@ -40,7 +40,16 @@ def classify(sym, member, texts):
     if 'VerifHooks' in sym:
         return 5, 'verification hook (guarded by TINS_VERIF_HOOKS)'
     if 'PDUAllocator' in sym and (sym.endswith('::allocators') or sym.endswith('::pdu_types')):
-        return 3, 'allocator registry (register_allocator API)'
+        # the registry may be written only by the registration functions: no operator[] / insert / erase / clear elsewhere
+        t = texts.get('include/tins/pdu_allocator.h', '')
+        name = sym.split('::')[-1]
+        for m in re.finditer(r'\b%s\s*(\[|\.\s*(insert|erase|clear|emplace|swap)\b)' % name, t):
+            # the enclosing function: nearest preceding "name(" at the start of a definition
+            head = t[:m.start()]
+            fn = re.findall(r'\n\s*(?:static\s+)?(?:template\s*<[^>]*>\s*)?[\w:<>*&, ]+?\b(\w+)\s*\([^;{}]*\)\s*(?:const\s*)?\{', head)
+            if not fn or not fn[-1].startswith('register'):
+                return 9, 'registry %s is written in %s() (include/tins/pdu_allocator.h)' % (name, fn[-1] if fn else '?')
+        return 3, 'allocator registry (written only by register_allocator)'
     base = re.sub(r'\(.*$', '', sym)            # function-local statics are reported as "function(args)::name"
     local = None
     m = re.search(r'\)::(\w+)$', sym)
